@@ -225,6 +225,7 @@ def op_token(op, den):
     if k == 'time': return 'T' + zint(op[1], den)
     if k == 'step': return 'S%d' % op[1]
     if k == 'history': return 'H'
+    if k == 'history0': return 'U'          # history() in which no specification matches
     raise ValueError(op)
 
 
@@ -239,7 +240,7 @@ def apply_op(lst, op, sels):
         if k == 'index': lst.index = op[1]; return '-'
         if k == 'time': lst.time = op[1]; return '-'
         if k == 'step': lst.step = op[1]; return '-'
-        if k == 'history':
+        if k in ('history', 'history0'):
             sel = sels[op[1]] if isinstance(op[1], int) else sel_from_json(op[1])
             lst.history(sel); return '-'
     except Exception as e:
@@ -275,7 +276,32 @@ def nav_selections(lst, names, sim):
     return sels
 
 
-def alphabet(ab, nsel, thorough):
+def nav_unmatched_selections(lst, names, thorough):
+    """history() selections with specifications that match nothing in this listing:
+    returns (mixed, unmatched).  `unmatched`: every specification fails (a table kind the listing
+    does not have -- 'e5' never exists --, a row name that does not occur, both together): history()
+    returns None early.  `mixed`: a matching specification together with a failing one."""
+    col0 = lst.element.column_name[0] if 'element' in names else 'X'
+    absent = [k for k in ('c', 'g', 'p') if {'c': 'connection', 'g': 'generation', 'p': 'primary'}[k] not in names]
+    kind = absent[0] if absent else 'e5'
+    key = 'zz999' if kind in ('p', 'e5') else ('zz998', 'zz999')
+    no_table = (kind, key, 'X')
+    no_row = ('e', 'zz999', col0)
+    unmatched = [[no_table], [no_row, no_table]]
+    if thorough: unmatched += [[no_row]] + ([[('e5', 7, 'X')]] if kind != 'e5' else [])
+    mixed = []
+    if 'element' in names:
+        mixed.append([('e', lst.element.row_name[0], col0), no_row, no_table])
+    return mixed, unmatched
+
+
+def op_json(o, sels):
+    """an action as it is written into a replay file"""
+    if o[0] in ('history', 'history0'): return [o[0], sel_to_json(sels[o[1]]) if isinstance(o[1], int) else o[1]]
+    return list(o)
+
+
+def alphabet(ab, nsel, thorough, nunmatched=0):
     """The actions tried on one listing.  index: both ends, negative, just outside the range;
     time/step: exact hits, a midpoint (tie), a point nearer the LOWER and a point nearer the UPPER
     neighbour of an interval (so that a rule that always takes one side is seen), before the
@@ -320,6 +346,7 @@ def alphabet(ab, nsel, thorough):
         if s not in seen: seen.append(s)
     ops += [('step', s) for s in seen]
     ops += [('history', k) for k in range(nsel)]
+    ops += [('history0', nsel + k) for k in range(nunmatched)]      # selections nsel.. match nothing
     return ops
 
 
@@ -508,10 +535,14 @@ def _run_job(pl, res):
         fresh.append(snap(l, names)); l.close()
     l0 = open_listing(path, skip)
     sels = nav_selections(l0, names, ab.sim)
+    mixed, unmatched = nav_unmatched_selections(l0, names, pl['thorough'])
+    sels = sels + mixed
+    nmatched = len(sels)
+    sels = sels + unmatched
     open_snap = snap(l0, names)
     l0.close()
     guard(0)
-    ops = alphabet(ab, len(sels), pl['thorough'])
+    ops = alphabet(ab, nmatched, pl['thorough'], len(unmatched))
     size = os.path.getsize(path)
     plan = None
     if pl.get('sequences') is not None:
@@ -532,7 +563,7 @@ def _run_job(pl, res):
 
     def fail(key, seq, upto, observed, required):
         if len(res['failures']) < 10:
-            inp = dict(pl['inp']); inp['ops'] = [list(o) if o[0] != 'history' else ['history', sel_to_json(sels[o[1]]) if isinstance(o[1], int) else o[1]] for o in seq[:upto + 1]]
+            inp = dict(pl['inp']); inp['ops'] = [op_json(o, sels) for o in seq[:upto + 1]]
             res['failures'].append({'key': key, 'input': inp, 'observed': observed, 'required': required})
 
     def same_as_fresh(lst):
@@ -593,8 +624,9 @@ def _run_job(pl, res):
             elif op[0] in ('first', 'last'):
                 if out != '-' or now != (0 if op[0] == 'first' else ab.n - 1):
                     fail('%s:position' % op[0], seq, k, '%s() gave index %d (outcome %s)' % (op[0], now, out), 'first/last result set')
-            elif op[0] == 'history':
+            elif op[0] in ('history', 'history0'):
                 if out != '-': fail('history:raises', seq, k, 'history raised %s' % out, 'no exception')
+                elif now != before: fail('history:moved', seq, k, 'history() at index %d left the listing at index %r' % (before, lst.index), 'extracting a history does not move the listing')
         lst.close()
         impl_lines.append(' '.join(line))
     # the abstract listing as a model case line
@@ -605,7 +637,7 @@ def _run_job(pl, res):
     res['open_obs'] = '-/%d/%s/%d/%s' % (int(open_snap[0]), zint(float(open_snap[1]), den), int(open_snap[2]),
                                          fmt_tabs(ab.group_digests([np.frombuffer(b, dtype=np.float64) for b in open_snap[3]])))
     res['impl_lines'] = impl_lines
-    res['seq_ops'] = [[list(o) if o[0] != 'history' else ['history', sel_to_json(sels[o[1]]) if isinstance(o[1], int) else o[1]] for o in s] for s in seqs] if pl.get('want_ops') else None
+    res['seq_ops'] = [[op_json(o, sels) for o in s] for s in seqs] if pl.get('want_ops') else None
     res['kinds'] = {k: kinds.count(k) for k in set(kinds)}
     res['complete'] = {str(k): v for k, v in complete.items()}
     res['nops'] = nops
@@ -845,7 +877,7 @@ def correspond_and_collect(ctx, exe, results, timeout):
 def run(ctx):
     ctx.rule = ('listings: every shipped file under tests/listing with >= 2 full result sets, truncated copies (quick: 1 and 2 result sets; thorough: 1..N) and '
                 'skip_tables variants; per listing an alphabet of ~25-30 actions {first,last,next,prev, index in {0,1,N/2,N-1,-1,-N,N,-N-1}, '
-                'time: exact hits, a midpoint (tie), a point nearer the lower and one nearer the upper neighbour, before first, after last; step likewise; history(2 selections)}; '
+                'time: exact hits, a midpoint (tie), a point nearer the lower and one nearer the upper neighbour, before first, after last; step likewise; history with 2 matching selections, one mixed and 2 (thorough 3-4) selections in which no specification matches (absent table kind, unknown row name)}; '
                 'sequences from a freshly opened listing: all of length 1, N2/N3 (thorough also N4) sequences of length 2/3/4 drawn without repetition, random sequences of length 30; '
                 'one chained walk on a single object doing index=i; a; b for every index i and P ordered pairs (a, b); N2, N3, N4, P are computed by plan_counts from '
                 'file size, number of result sets and alphabet size only (no clock; reported under enumerated_of_all); '
